@@ -322,6 +322,11 @@ func (l *Loaded) RunNative(dir string, files []string, race bool) ([]NativeResul
 		ov.Replace[v] = r
 	}
 	ov.Replace[filepath.Join(repoDir, info[0], "zz_v_replay_test.go")] = testReal
+	// native-only companions (model validation, translator validation)
+	nfiles, _ := filepath.Glob(filepath.Join(verifDir, "harness", dir, "native", "*.go"))
+	for _, f := range nfiles {
+		ov.Replace[filepath.Join(repoDir, info[0], "zz_v_"+filepath.Base(f))] = f
+	}
 	ovPath := filepath.Join(l.tmp, dir+"_overlay.json")
 	b, _ := json.Marshal(ov)
 	if err := os.WriteFile(ovPath, b, 0o644); err != nil {
@@ -359,4 +364,33 @@ func (l *Loaded) RunNative(dir string, files []string, race bool) ([]NativeResul
 		return res, string(outb), fmt.Errorf("native run returned %d results for %d files", len(res), len(files))
 	}
 	return res, string(outb), nil
+}
+
+// GoTestNative runs `go test -run pattern` on package dir with the harness
+// overlay and extra environment; returns combined output.
+func (l *Loaded) GoTestNative(dir, pattern string, env []string, timeout string) (string, error) {
+	info := harnessPkgs[dir]
+	testReal := filepath.Join(l.tmp, dir+"_replay_test.go")
+	if err := os.WriteFile(testReal, []byte(l.nativeTestSrc(dir)), 0o644); err != nil {
+		return "", err
+	}
+	ov := struct{ Replace map[string]string }{map[string]string{}}
+	for v, r := range l.overlayFiles {
+		ov.Replace[v] = r
+	}
+	ov.Replace[filepath.Join(repoDir, info[0], "zz_v_replay_test.go")] = testReal
+	nfiles, _ := filepath.Glob(filepath.Join(verifDir, "harness", dir, "native", "*.go"))
+	for _, f := range nfiles {
+		ov.Replace[filepath.Join(repoDir, info[0], "zz_v_"+filepath.Base(f))] = f
+	}
+	ovPath := filepath.Join(l.tmp, dir+"_overlay2.json")
+	b, _ := json.Marshal(ov)
+	if err := os.WriteFile(ovPath, b, 0o644); err != nil {
+		return "", err
+	}
+	cmd := exec.Command("go", "test", "-vet=off", "-count=1", "-overlay", ovPath, "-run", pattern, "-timeout", timeout, "./"+info[0])
+	cmd.Dir = repoDir
+	cmd.Env = append(goEnv(), env...)
+	out, err := cmd.CombinedOutput()
+	return string(out), err
 }
